@@ -45,6 +45,10 @@ class MultiVector:
             keys, values = zip(*((blade, items[blade]) for blade in algebra.canon2bin if blade in items))
             values = list(values)
 
+        if isinstance(values, Mapping) and keys is None:
+            # Unpack a mapping right away, such that its keys are checked like any other keys.
+            keys, values = tuple(values.keys()), list(values.values())
+
         # Sanitize input
         if keys is not None and not all(isinstance(k, int) for k in keys):
             keys = tuple(k if k in algebra.bin2canon else algebra.canon2bin[k] for k in keys)
